@@ -282,7 +282,8 @@ impl Iterator for RenkoOutput {
 
 	#[inline]
 	fn nth(&mut self, n: usize) -> Option<Self::Item> {
-		self.pos += n;
+		// skipping past the last block must exhaust the iterator, not step over its end
+		self.pos = self.pos.saturating_add(n).min(self.len);
 		self.next()
 	}
 
